@@ -491,4 +491,197 @@ theorem pre_isOk_of_late {o : Opt} {sh : Sh p} {w : FW p} {f : Fault}
   simp only [h1, h2, h3, h4, Bool.and_false, Bool.false_eq_true, if_false]
   exact ⟨_, rfl⟩
 
+section stages
+variable (o : Opt) (sh : Sh p) (rw : Bool) (w : FW p)
+
+local macro "w4_cases" : tactic => `(tactic|
+  (by_cases h1 : tcpWrites rw (w0Of w) = true <;> by_cases h2 : (backChanged (s0Of sh rw w) || rw) = true <;>
+    by_cases h3 : (w.tcp.want != 0) = true <;>
+    simp [w4Of, crtStage, bmStage, flagStage, tcpStage, w0Of, shrinkFlags, mapFlags, bmWrite, h1, h2, h3]))
+
+theorem w4Of_g : (w4Of o sh rw w).g = w.g := by w4_cases
+theorem w4Of_h : (w4Of o sh rw w).h = hWrite (hs0Of rw w) := by w4_cases
+theorem w4Of_run : (w4Of o sh rw w).run = w.run := by w4_cases
+theorem w4Of_pending : (w4Of o sh rw w).pending = w.pending := by w4_cases
+theorem w4Of_reloadOwed : (w4Of o sh rw w).reloadOwed = w.reloadOwed := by w4_cases
+theorem w4Of_rewriteOwed : (w4Of o sh rw w).rewriteOwed = true := by w4_cases
+theorem w4Of_mainHosts : (w4Of o sh rw w).mainHosts = w.mainHosts := by w4_cases
+theorem w4Of_tcp_want : (w4Of o sh rw w).tcp.want = w.tcp.want := by w4_cases
+theorem w4Of_tcp_changed : (w4Of o sh rw w).tcp.changed = w.tcp.changed := by w4_cases
+theorem w4Of_tcp_main : (w4Of o sh rw w).tcp.main = w.tcp.main := by w4_cases
+theorem w4Of_tcp_map : (w4Of o sh rw w).tcp.map = if tcpWrites rw (w0Of w) then w.tcp.want else w.tcp.map := by w4_cases
+theorem w4Of_tcp_crt : (w4Of o sh rw w).tcp.crt = if w.tcp.want != 0 then w.tcp.want else w.tcp.crt := by w4_cases
+theorem w4Of_bm (x : Fin p) : (w4Of o sh rw w).bm x =
+    if backChanged (s0Of sh rw w) || rw then
+      (match visOf rw (s0Of sh rw w) x with
+        | some c => if o.needACL (conf c) then some (conf c) else w.bm x
+        | none => w.bm x)
+    else w.bm x := by
+  w4_cases <;> (cases visOf rw (s0Of sh rw w) x <;> rfl)
+theorem w4Of_pmI (x : Fin p) : (w4Of o sh rw w).pmI x =
+    (((backChanged (s0Of sh rw w) || rw) && (visOf rw (s0Of sh rw w) x).isSome) ||
+      (if matched w.g.w.store x then w.pmD x else w.pmI x)) := by w4_cases
+theorem w4Of_pcI (x : Fin p) : (w4Of o sh rw w).pcI x =
+    (((backChanged (s0Of sh rw w) || rw) && (visOf rw (s0Of sh rw w) x).isSome) ||
+      (if matched w.g.w.store x then w.pcD x else w.pcI x)) := by w4_cases
+
+end stages
+
+/-! ### the dynamic update -/
+
+theorem pair?_eq_some {s : Store p} {x : Fin p} {d a : Content} :
+    pair? s x = some (d, a) ↔ s.del x = some d ∧ s.add x = some a ∧ a.slots ≤ d.slots := by
+  unfold pair?
+  cases hd : s.del x with
+  | none => simp
+  | some d' =>
+    cases ha : s.add x with
+    | none => simp
+    | some a' =>
+      by_cases hle : a'.slots ≤ d'.slots
+      · simp only [hle, if_true, Option.some.injEq, Prod.mk.injEq]
+        constructor
+        · rintro ⟨rfl, rfl⟩; exact ⟨rfl, rfl, hle⟩
+        · rintro ⟨rfl, rfl, _⟩; exact ⟨rfl, rfl⟩
+      · simp only [hle, if_false, Option.some.injEq]
+        constructor
+        · intro h; cases h
+        · rintro ⟨rfl, rfl, h⟩; exact absurd h hle
+
+theorem pair?_none_of_add_none {s : Store p} {x : Fin p} (h : s.add x = none) : pair? s x = none := by
+  unfold pair?; cases s.del x <;> simp [h]
+
+theorem dynStore_items (sh : Sh p) (s : Store p) (x : Fin p) :
+    (dynStore sh s).items x = match pair? s x with
+      | some da => some { cfg := da.2.cfg, slots := da.1.slots }
+      | none => s.items x := by
+  unfold dynStore; simp only []; cases hp : pair? s x <;> simp
+
+theorem dynStore_add (sh : Sh p) (s : Store p) (x : Fin p) :
+    (dynStore sh s).add x = match pair? s x with
+      | some da => some { cfg := da.2.cfg, slots := da.1.slots }
+      | none => s.add x := by
+  unfold dynStore; simp only []; cases hp : pair? s x <;> simp
+
+theorem dynStore_del (sh : Sh p) (s : Store p) : (dynStore sh s).del = s.del := rfl
+theorem dynStore_changed (sh : Sh p) (s : Store p) : (dynStore sh s).changed = s.changed := rfl
+
+theorem dynStore_add_isSome (sh : Sh p) (s : Store p) (x : Fin p) :
+    ((dynStore sh s).add x).isSome = (s.add x).isSome := by
+  rw [dynStore_add]
+  cases hp : pair? s x with
+  | none => rfl
+  | some da =>
+    obtain ⟨d, a⟩ := da
+    have := (pair?_eq_some.1 hp).2.1
+    simp [this]
+
+/-- the dynamic update keeps the C05 invariant: the added object of a pair is replaced, in `items`,
+`itemsAdd` and its shard, by one that differs in the number of empty slots only -/
+theorem dynStore_inv {sh : Sh p} {s : Store p} {d : Disk p} (h : Inv sh { store := s, disk := d }) :
+    Inv sh { store := dynStore sh s, disk := d } := by
+  obtain ⟨ha, hb, hb2, hc, he, hs1, hg⟩ := h
+  refine ⟨?_, ?_, ?_, ?_, ?_, ?_, ?_⟩
+  · intro x c hx
+    simp only [dynStore_add, dynStore_items] at hx ⊢
+    cases hp : pair? s x with
+    | none => simp only [hp] at hx ⊢; exact ha x c hx
+    | some da => simp only [hp] at hx ⊢; exact hx
+  · intro x hx hd
+    simp only [dynStore_add, dynStore_items] at hx ⊢
+    cases hp : pair? s x with
+    | none => simp only [hp] at hx ⊢; exact hb x hx hd
+    | some da => simp [hp] at hx
+  · intro x hx hd
+    simp only [dynStore_add, dynStore_items] at hx ⊢
+    cases hp : pair? s x with
+    | none => simp only [hp] at hx ⊢; exact hb2 x hx hd
+    | some da => simp [hp] at hx
+  · exact hc
+  · intro hn x hx
+    have : ((dynStore sh s).add x).isSome = (s.add x).isSome := dynStore_add_isSome sh s x
+    simp only [] at hx
+    rw [this] at hx
+    exact he hn x hx
+  · intro hn k x
+    simp only [dynStore_items]
+    show (dynStore sh s).shards k x = _
+    unfold dynStore
+    simp only []
+    cases hp : pair? s x with
+    | none => simp only [Option.map_none]; exact hs1 hn k x
+    | some da =>
+      simp only [Option.map_some]
+      by_cases hk : sh.shardOf x = k
+      · simp [hk, hn]
+      · have hk' : ¬ (k = sh.shardOf x) := fun h => hk h.symm
+        simp only [hn, ne_eq, not_false_eq_true, hk', and_false, if_false, hk]
+        have := hs1 hn k x
+        simp only [hk, if_false] at this
+        exact this
+  · exact hg
+
+/-- a name has an item after the dynamic update iff it had one before -/
+theorem dynStore_items_isSome {sh : Sh p} {s : Store p} (h : SInv sh s)
+    (x : Fin p) : ((dynStore sh s).items x).isSome = (s.items x).isSome := by
+  rw [dynStore_items]
+  cases hp : pair? s x with
+  | none => rfl
+  | some da =>
+    obtain ⟨d', a⟩ := da
+    have : s.items x = some a := h.a x a (pair?_eq_some.1 hp).2.1
+    simp [this]
+
+/-- and its `conf` is the same -/
+theorem dynStore_items_conf {sh : Sh p} {s : Store p} (h : SInv sh s)
+    {x : Fin p} {c : Content} (hx : (dynStore sh s).items x = some c) :
+    ∃ c0, s.items x = some c0 ∧ conf c0 = conf c := by
+  rw [dynStore_items] at hx
+  cases hp : pair? s x with
+  | none => rw [hp] at hx; exact ⟨c, hx, rfl⟩
+  | some da =>
+    obtain ⟨d', a⟩ := da
+    rw [hp] at hx
+    simp only [Option.some.injEq] at hx
+    subst hx
+    exact ⟨a, h.a x a (pair?_eq_some.1 hp).2.1, rfl⟩
+
+theorem sinv_dynStore {sh : Sh p} {s : Store p} (h : SInv sh s) : SInv sh (dynStore sh s) := by
+  obtain ⟨ha, hs1⟩ := h
+  refine ⟨?_, ?_⟩
+  · intro x c hx
+    simp only [dynStore_add, dynStore_items] at hx ⊢
+    cases hp : pair? s x with
+    | none => simp only [hp] at hx ⊢; exact ha x c hx
+    | some da => simp only [hp] at hx ⊢; exact hx
+  · intro hn k x
+    simp only [dynStore_items]
+    show (dynStore sh s).shards k x = _
+    unfold dynStore
+    simp only []
+    cases hp : pair? s x with
+    | none => simp only [Option.map_none]; exact hs1 hn k x
+    | some da =>
+      simp only [Option.map_some]
+      by_cases hk : sh.shardOf x = k
+      · simp [hk, hn]
+      · have hk' : ¬ (k = sh.shardOf x) := fun h => hk h.symm
+        simp only [hn, ne_eq, not_false_eq_true, hk', and_false, if_false, hk]
+        have := hs1 hn k x
+        simp only [hk, if_false] at this
+        exact this
+
+theorem anyRange_false {f : Nat → Bool} {lo : Nat} : ∀ {n : Nat}, anyRange f lo n = false →
+    ∀ i, i < n → f (lo + i) = false := by
+  intro n
+  induction n with
+  | zero => intro _ i hi; omega
+  | succ n ih =>
+    intro h i hi
+    simp only [anyRange, Bool.or_eq_false_iff] at h
+    by_cases hin : i = n
+    · subst hin; exact h.1
+    · exact ih h.2 i (by omega)
+
+
 end HapVerif.C12
